@@ -53,3 +53,33 @@ Definition action_b (a : action) : bool := match a with AOn _ a' => action_b0 a'
 Definition event_b (sc : script) (n : Z) (e : event) : bool :=
   (if mstatus_eqb (b_status (ev_book e)) MClosed then ladders_b (ev_book e) else book_b (ev_book e)) &&
   forallb (fun st => forallb action_b (sc st (ev_market e) (ev_idx e))) (map Z.of_nat (seq 0 (Z.to_nat n))).
+
+(* ---- side condition of the whole-run acknowledgement-time theorem (C07): a placement package finds the order it was created with, bet delays >= 0 ---- *)
+Definition ack_guard_b (s : sim) (p : pkg) : bool :=
+  match pk_kind p with
+  | KPlace =>
+      (0 <=? pk_bet_delay p) &&
+      match get_market (pk_market p) (s_markets s) with
+      | Some m => match get_order (pk_order p) (mk_orders m) with
+                  | Some o => (so_created o =? pk_created p) && negb (so_repl o)
+                  | None => true
+                  end
+      | None => true
+      end
+  | KReplace => 0 <=? pk_bet_delay p
+  | _ => true
+  end.
+Fixpoint pkgs_ack_guard_b (tb : tiebreak) (cf : config) (now : Z) (ps : list pkg) (s : sim) : bool :=
+  match ps with
+  | [] => true
+  | p :: r => (s_aborted s || ack_guard_b s p) && pkgs_ack_guard_b tb cf now r (if s_aborted s then s else exec_pkg tb cf now s p)
+  end.
+Definition step_ack_guard_b (tb : tiebreak) (cf : config) (s : sim) (e : event) : bool :=
+  s_aborted s ||
+  match s_queue s with
+  | [] => true
+  | _ => pkgs_ack_guard_b tb cf (b_pt (ev_book e))
+           (filter (fun p => (pk_market p =? ev_market e) && due cf (b_pt (ev_book e)) p) (s_queue s)) s
+  end.
+Fixpoint run_ack_guard_b (tb : tiebreak) (cf : config) (n : Z) (sc : script) (es : list event) (s : sim) : bool :=
+  match es with [] => true | e :: r => step_ack_guard_b tb cf s e && run_ack_guard_b tb cf n sc r (step tb cf n sc s e) end.
